@@ -166,12 +166,15 @@ static std::vector<std::pair<QString, std::function<void(T &)>>> states()
         out.push_back({ u"iq-get"_s, [](T &t) { t.setType(QXmppIq::Get); } });
         out.push_back({ u"iq-set"_s, [](T &t) { t.setType(QXmppIq::Set); } });
         out.push_back({ u"iq-result"_s, [](T &t) { t.setType(QXmppIq::Result); } });
+        out.push_back({ u"iq-error"_s, [](T &t) { t.setType(QXmppIq::Error); } });
     } else if constexpr (std::is_same_v<T, QXmppMessage>) {
         out.push_back({ u"chat"_s, [](T &t) { t.setType(QXmppMessage::Chat); } });
         out.push_back({ u"groupchat"_s, [](T &t) { t.setType(QXmppMessage::GroupChat); } });
+        out.push_back({ u"error"_s, [](T &t) { t.setType(QXmppMessage::Error); } });
     } else if constexpr (std::is_same_v<T, QXmppPresence>) {
         out.push_back({ u"available"_s, [](T &) {} });
         out.push_back({ u"unavailable"_s, [](T &t) { t.setType(QXmppPresence::Unavailable); } });
+        out.push_back({ u"error"_s, [](T &t) { t.setType(QXmppPresence::Error); } });
     } else {
         out.push_back({ u"default"_s, [](T &) {} });
     }
@@ -200,6 +203,29 @@ static bool toDom(QByteArray x, QDomDocument &doc, bool &wrapped)
         return parseDocNs(d2.toByteArray(-1), doc);
     }
     return true;
+}
+
+// canonical form of an element: tag, namespace, sorted attributes, text, children as a sorted multiset ("up to sibling order")
+static QString canonEl(const QDomElement &el)
+{
+    QString out = u'{' + el.namespaceURI() + u'}' + (el.localName().isEmpty() ? el.tagName() : el.localName());
+    QStringList attrs;
+    const auto m = el.attributes();
+    for (int i = 0; i < m.count(); i++) {
+        const auto a = m.item(i).toAttr();
+        if (a.name() == u"xmlns" || a.name().startsWith(u"xmlns:")) continue;
+        attrs << a.name() + u'=' + a.value();
+    }
+    attrs.sort();
+    out += u'[' + attrs.join(u'|') + u']';
+    QStringList kids;
+    QString text;
+    for (auto n = el.firstChild(); !n.isNull(); n = n.nextSibling()) {
+        if (n.isElement()) kids << canonEl(n.toElement());
+        else if (n.isText()) text += n.nodeValue();
+    }
+    kids.sort();
+    return out + u'(' + (kids.isEmpty() ? text : text.trimmed()) + kids.join(u',') + u')';
 }
 
 static int g_fields = 0, g_live = 0, g_values = 0, g_fail = 0, g_skip = 0;
@@ -299,7 +325,18 @@ static void runAccess(const char *cls, const char *setter, Set set, Get get, boo
             }
             const G g = get(*o2);
             got = show(g);
-            return same(v, g);
+            if (!same(v, g)) return false;
+            // "... and serializes to the same XML"
+            const QByteArray xml2 = serializeAny(*o2);
+            if (xml2 != xml) {
+                QDomDocument doc2;
+                bool wrapped2;
+                if (!toDom(xml2, doc2, wrapped2) || canonEl(doc.documentElement()) != canonEl(doc2.documentElement())) {
+                    got = u"(serializes differently after the round trip) "_s + QString::fromUtf8(xml2.left(700));
+                    return false;
+                }
+            }
+            return true;
         };
         QString got;
         QByteArray xml;
@@ -343,6 +380,104 @@ static void runAccess(const char *cls, const char *setter, Set set, Get get, boo
     }
 }
 
+// object-valued fields (lists / optionals of codec classes): values are parsed from corpus elements handed in by the driver ("objs"),
+// equality is equality of the value objects' own serialization
+static QJsonObject g_objs;
+template<class T, class X, class Set, class Get>
+static void runObject(const char *cls, const char *setter, const char *xname, const char *objKey, Set set, Get get, int maxCount = 2)
+{
+    static const auto reg = buildRegistry();
+    const Entry *xcheck = nullptr;
+    for (const auto &e : reg)
+        if (e.hasCheck && e.name == QLatin1String(xname)) xcheck = &e;
+    g_fields++;
+    if (g_fields <= g_skip) return;
+    printf("FIELD %d %s %s\n", g_fields, cls, setter);
+    fflush(stdout);
+    std::vector<X> values;
+    for (auto v : g_objs[QString::fromLatin1(objKey)].toArray()) {
+        QDomDocument d;
+        if (!d.setContent(v.toString().toUtf8(), true)) continue;
+        if (xcheck && !xcheck->check(d.documentElement())) continue;   // the value type's own check refuses this corpus element (a negative test document)
+        std::optional<X> x;
+        if constexpr (std::is_same_v<X, QXmppElement>) x = QXmppElement(d.documentElement());
+        else x = parseAny<X>(d.documentElement());
+        if (x) {
+            // only values that survive their own round trip are fair probes of the container
+            const QByteArray a = serializeAny(*x);
+            if (!a.trimmed().isEmpty()) values.push_back(*x);
+        }
+    }
+    for (auto &[stateName, prep] : states<T>()) {
+        QJsonObject rec { { "cls", QString::fromLatin1(cls) }, { "field", QString::fromLatin1(setter) }, { "state", stateName }, { "object_valued", true } };
+        QJsonArray fails;
+        int tried = 0;
+        bool live = false;
+        for (size_t i = 0; i < values.size(); i++) {
+            for (int count = 1; count <= (i == 0 ? maxCount : 1); count++) {   // one value; for the first also two of them
+                std::vector<X> in(size_t(count), values[i]);
+                if (count == 2 && values.size() > 1) in[1] = values[1];
+                T o {};
+                prep(o);
+                set(o, in);
+                const QByteArray xml = serializeAny(o);
+                QDomDocument doc;
+                bool wrapped;
+                QString got;
+                bool ok = false;
+                if (!toDom(xml, doc, wrapped)) got = u"(output not well-formed)"_s;
+                else if (auto o2 = parseAny<T>(doc.documentElement()); !o2) got = u"(own output refused)"_s;
+                else {
+                    const std::vector<X> out = get(*o2);
+                    QStringList a, b;
+                    for (auto &x : in) a << QString::fromUtf8(serializeAny(x));
+                    for (auto &x : out) b << QString::fromUtf8(serializeAny(x));
+                    a.sort();
+                    b.sort();
+                    got = b.join(u" ; ");
+                    ok = a == b;
+                    if (ok) {
+                        const QByteArray xml2 = serializeAny(*o2);
+                        QDomDocument doc2;
+                        bool w2;
+                        if (xml2 != xml && (!toDom(xml2, doc2, w2) || canonEl(doc.documentElement()) != canonEl(doc2.documentElement()))) {
+                            ok = false;
+                            got = u"(serializes differently after the round trip) "_s + QString::fromUtf8(xml2.left(900));
+                        }
+                    }
+                }
+                if (i == 0 && count == 1) {
+                    live = ok || got.startsWith(u"(serializes differently");
+                    if (!live) {
+                        rec["probe_xml"] = QString::fromUtf8(xml.left(600));
+                        rec["probe_got"] = got.left(300);
+                        break;
+                    }
+                }
+                tried++;
+                g_values++;
+                if (!ok) {
+                    g_fail++;
+                    fails.append(QJsonObject { { "value", QString::fromUtf8(serializeAny(values[i])).left(400) + (count == 2 ? u" (x2)"_s : QString()) }, { "got", got.left(900) }, { "xml", QString::fromUtf8(xml.left(1200)) } });
+                }
+            }
+            if (!live) break;
+        }
+        rec["live"] = live;
+        if (live) {
+            g_live++;
+            rec["tried"] = tried;
+            rec["fails"] = fails;
+        }
+        emitJson(rec);
+    }
+}
+template<class X, class L>
+static std::vector<X> toVec(const L &l) { return std::vector<X>(l.begin(), l.end()); }
+// list-valued, optional-valued and plain object setters
+#define OL(T, S, G, X, L, KEY) runObject<T, X>(#T, #S, #X, KEY, [](T &o, const std::vector<X> &v) { o.S(L(v.begin(), v.end())); }, [](const T &o) { return toVec<X>(o.G()); })
+#define OO(T, S, G, X, KEY) runObject<T, X>(#T, #S, #X, KEY, [](T &o, const std::vector<X> &v) { o.S(v.front()); }, [](const T &o) { std::vector<X> r; if (auto x = o.G()) r.push_back(*x); return r; }, 1)
+#define OP(T, S, G, X, KEY) runObject<T, X>(#T, #S, #X, KEY, [](T &o, const std::vector<X> &v) { o.S(v.front()); }, [](const T &o) { return std::vector<X> { o.G() }; }, 1)
 #define F(T, S, G) runField<T>(#T, #S, &T::S, &T::G)
 #define M(T, MEM) runMember<T>(#T, #MEM, &T::MEM)
 #define MB(T, MEM) runMember<T>(#T, #MEM, &T::MEM, true)
@@ -356,6 +491,7 @@ int main()
         printf("BEGIN %d\n", in["n"].toInt());
         fflush(stdout);
         g_ns = in["ns"].toObject();
+        g_objs = in["objs"].toObject();
         g_rng.seed(quint64(in["seed"].toDouble(1)));
         g_fields = g_live = g_values = g_fail = 0;
         g_skip = in["skip"].toInt(0);
